@@ -20,8 +20,12 @@
 //!        sched: schedule_in(msg(id), delay) on the emitting module
 //!        send : send / send_in over the gate to module <dst> (dst = own module => schedule_in)
 //!        task=<extra> (handler hooks only): spawn a tokio task that sleeps extra+1 ns and then emits
+//!   down <who> <hook> <n> <d|->                        on the n-th call (0-based, counted per instance over the whole run)
+//!        of that hook request a shutdown: `-` = current().shutdown(), d = current().shutdow_and_restart_in(d ns);
+//!        who/hook = <E> start|inc|end  or  H:<M> msg|simstart
 //!   init <M> <id> <time>                               message injected before the run
-//! Transcript: the same lines, then `obs <M> <who> <hook> <msgid|-> <ns>` per logged call, then
+//! Transcript: the same lines, then `obs <M> <who> <hook> <msgid|-> <ns>` per logged call
+//! (`obs <M> <who> down <restart ns|-> <ns>` for a shutdown request, right after the call that made it), then
 //! `res ok|err=<kind> time=<ns>`.
 use crate::rng::Rng;
 use crate::util::{cases, guarded};
@@ -56,6 +60,9 @@ struct ElemSpec {
     start: HashMap<u64, Vec<Emit>>,
     inc: HashMap<u64, Vec<Emit>>,
     end: HashMap<u64, Vec<Emit>>,
+    down_start: HashMap<u64, Vec<Option<u64>>>,
+    down_inc: HashMap<u64, Vec<Option<u64>>>,
+    down_end: HashMap<u64, Vec<Option<u64>>>,
 }
 
 #[derive(Clone, Debug, Default)]
@@ -67,6 +74,8 @@ struct ModSpec {
     msg: HashMap<u64, Vec<Emit>>,
     simstart: HashMap<u64, Vec<Emit>>,
     simend: HashMap<u64, Vec<Emit>>,
+    down_msg: HashMap<u64, Vec<Option<u64>>>,
+    down_simstart: HashMap<u64, Vec<Option<u64>>>,
 }
 
 #[derive(Default)]
@@ -176,6 +185,32 @@ fn parse(body: &[String]) -> Script {
                     }
                 }
             }
+            ["down", who, hook, key, r] => {
+                let Ok(key) = key.parse::<u64>() else { continue };
+                let r = if *r == "-" {
+                    None
+                } else {
+                    match r.parse::<u64>() {
+                        Ok(v) => Some(v),
+                        Err(_) => continue,
+                    }
+                };
+                if let Some(m) = who.strip_prefix("H:") {
+                    let Some(ms) = sc.mods.iter_mut().find(|x| x.tag == m) else { continue };
+                    match *hook {
+                        "msg" => ms.down_msg.entry(key).or_default().push(r),
+                        "simstart" => ms.down_simstart.entry(key).or_default().push(r),
+                        _ => {}
+                    }
+                } else if let Some(es) = find_elem(&mut sc, who) {
+                    match *hook {
+                        "start" => es.down_start.entry(key).or_default().push(r),
+                        "inc" => es.down_inc.entry(key).or_default().push(r),
+                        "end" => es.down_end.entry(key).or_default().push(r),
+                        _ => {}
+                    }
+                }
+            }
             ["init", m, id, time] => {
                 let (Ok(id), Ok(time)) = (id.parse::<u16>(), time.parse::<u64>()) else { continue };
                 if modtags.iter().any(|x| x == m) {
@@ -243,10 +278,27 @@ fn emit_all(own: &str, es: Option<&Vec<Emit>>) {
     }
 }
 
+fn down_all(module: &str, who: &str, rs: Option<&Vec<Option<u64>>>) {
+    for r in rs.into_iter().flatten() {
+        let now = SimTime::now().as_nanos();
+        match r {
+            None => {
+                current().shutdown();
+                LOG.lock().unwrap().push(format!("obs {module} {who} down - {now}"));
+            }
+            Some(d) => {
+                current().shutdow_and_restart_in(Duration::from_nanos(*d));
+                LOG.lock().unwrap().push(format!("obs {module} {who} down {} {now}", now + *d as u128));
+            }
+        }
+    }
+}
+
 struct Elem {
     module: String,
     spec: Arc<ElemSpec>,
     starts: u64,
+    incs: u64,
     ends: u64,
 }
 
@@ -254,12 +306,15 @@ impl ProcessingElement for Elem {
     fn event_start(&mut self) {
         log(&self.module, &self.spec.tag, "start", None);
         emit_all(&self.module, self.spec.start.get(&self.starts));
+        down_all(&self.module, &self.spec.tag, self.spec.down_start.get(&self.starts));
         self.starts += 1;
     }
     fn incoming(&mut self, mut msg: Message) -> Option<Message> {
         let id = msg.header().id;
         log(&self.module, &self.spec.tag, "inc", Some(id));
         emit_all(&self.module, self.spec.inc.get(&(id as u64)));
+        down_all(&self.module, &self.spec.tag, self.spec.down_inc.get(&self.incs));
+        self.incs += 1;
         match self.spec.rules.get(&id) {
             None | Some(Act::Pass) => Some(msg),
             Some(Act::Consume) => None,
@@ -272,19 +327,23 @@ impl ProcessingElement for Elem {
     fn event_end(&mut self) {
         log(&self.module, &self.spec.tag, "end", None);
         emit_all(&self.module, self.spec.end.get(&self.ends));
+        down_all(&self.module, &self.spec.tag, self.spec.down_end.get(&self.ends));
         self.ends += 1;
     }
 }
 
 struct Handler {
     spec: Arc<ModSpec>,
+    // call counters; `Module::reset` (default: nothing) leaves them alone, so they count over restarts
+    hmsgs: u64,
+    hstarts: u64,
 }
 
 impl Module for Handler {
     fn stack(&self, stack: ProcessingStack) -> ProcessingStack {
         let mut own = ProcessingStack::default();
         for e in &self.spec.own {
-            own.append(Elem { module: self.spec.tag.clone(), spec: Arc::new(e.clone()), starts: 0, ends: 0 });
+            own.append(Elem { module: self.spec.tag.clone(), spec: Arc::new(e.clone()), starts: 0, incs: 0, ends: 0 });
         }
         match self.spec.mode.as_str() {
             "prepend" => {
@@ -305,11 +364,15 @@ impl Module for Handler {
     fn at_sim_start(&mut self, stage: usize) {
         log(&self.spec.tag, "H", "simstart", Some(stage as u16));
         emit_all(&self.spec.tag, self.spec.simstart.get(&(stage as u64)));
+        down_all(&self.spec.tag, "H", self.spec.down_simstart.get(&self.hstarts));
+        self.hstarts += 1;
     }
     fn handle_message(&mut self, msg: Message) {
         let id = msg.header().id;
         log(&self.spec.tag, "H", "msg", Some(id));
         emit_all(&self.spec.tag, self.spec.msg.get(&(id as u64)));
+        down_all(&self.spec.tag, "H", self.spec.down_msg.get(&self.hmsgs));
+        self.hmsgs += 1;
     }
     fn at_sim_end(&mut self) -> Result<(), RuntimeError> {
         log(&self.spec.tag, "H", "simend", None);
@@ -327,14 +390,14 @@ fn simulate(sc: &Script) -> Result<u128, String> {
             let module = BUILDING.lock().unwrap().clone();
             let mut st = ProcessingStack::default();
             for g in &globals {
-                st.append(Elem { module: module.clone(), spec: g.clone(), starts: 0, ends: 0 });
+                st.append(Elem { module: module.clone(), spec: g.clone(), starts: 0, incs: 0, ends: 0 });
             }
             st
         });
     }
     for m in &sc.mods {
         *BUILDING.lock().unwrap() = m.tag.clone();
-        sim.node(m.tag.as_str(), Handler { spec: Arc::new(m.clone()) });
+        sim.node(m.tag.as_str(), Handler { spec: Arc::new(m.clone()), hmsgs: 0, hstarts: 0 });
     }
     for a in &sc.mods {
         for b in &sc.mods {
@@ -482,6 +545,35 @@ pub fn gen(seed: u64, count: usize, thorough: bool) -> String {
             for i in 0..n {
                 let delay = ds[((i * 7 + i / 3) % 3) as usize];
                 writeln!(out, "emit H:{m} simstart 0 {kind} {dst} {delay} {}", 100 + i).unwrap();
+            }
+        }
+        // lifecycle (half of the cases): element hooks and handlers that shut their module down, for good or with a
+        // restart, on their n-th call; timeouts and gate messages that fall due during the down time; traffic after
+        // the restart
+        let life = r.chance(1, 2);
+        if life {
+            for _ in 0..r.range(1, 3) {
+                let who = r.pick(&whos).clone();
+                let hook = if who.starts_with("H:") { *r.pick(&["msg", "msg", "simstart"]) } else { *r.pick(&["start", "inc", "end"]) };
+                let n = *r.pick(&[0u64, 0, 1, 1, 2, 3, 4, 6]);
+                let d = *r.pick(&["-", "0", "1", "2", "3", "5", "10", "10", "1000"]);
+                writeln!(out, "down {who} {hook} {n} {d}").unwrap();
+            }
+            for _ in 0..r.range(1, 4) {
+                let who = r.pick(&whos).clone();
+                let handler = who.starts_with("H:");
+                let hook = if handler { "simstart" } else { *r.pick(&["start", "end"]) };
+                let key = if handler { r.below(2) } else { r.below(4) };
+                let kind = if r.chance(1, 2) { "send" } else { "sched" };
+                let dst = r.pick(&mods).clone();
+                let delay = *r.pick(&[1u64, 2, 3, 4, 6, 8, 11]);
+                let task = if handler && r.chance(1, 3) { format!(" task={}", r.pick(&[0u64, 2, 6])) } else { String::new() };
+                writeln!(out, "emit {who} {hook} {key} {kind} {dst} {delay} {}{task}", r.range(1, nid)).unwrap();
+            }
+            for _ in 0..r.range(2, 6) {
+                let m = r.pick(&mods);
+                let t = *r.pick(&[1u64, 2, 3, 4, 5, 6, 8, 9, 10, 12, 15, 20, 1000, 1002, 1010, 2000]);
+                writeln!(out, "init {m} {} {t}", r.range(1, nid)).unwrap();
             }
         }
         // injected messages
